@@ -223,6 +223,10 @@ Qed.
 
 Local Opaque checksum_calculation.
 
+
+(* Statement changed with the F21 repair: in unacknowledged mode the cancelled transaction ends with its EOF (cancel) and
+   the Transaction-Finished indication (if enabled) is logged between the EOF-Sent indication and the cancel callback;
+   the events between the callback and the old log are now given exactly (before: evs = [] \/ evs = [EvEofSent a b]) *)
 Lemma source_cancel : forall s cond a b ck,
   q_tid (s_p s) = Some (a, b) -> get_fault_handler (l_faults (s_cfg s)) cond = Some FH_CANCEL ->
   (q_cond_eof (s_p s) = None \/ q_cond_eof (s_p s) = Some C_NO_ERROR) ->
@@ -231,7 +235,9 @@ Lemma source_cancel : forall s cond a b ck,
   snd (checksum_calculation (q_progress (s_p s)) s) = Ok ck ->
   exists s', declare_fault_s cond s = (s', Ok tt) /\
     (exists evs, log_s s' = EvFault FH_CANCEL a b cond (q_progress (s_p s)) :: evs ++ log_s s /\
-                 (evs = [] \/ evs = [EvEofSent a b])) /\
+                 evs = (if negb (sc_mode (q_conf (s_p s)) =? ACKED) && l_ind_fin (s_cfg s)
+                        then [EvFinished a b cond DATA_INCOMPLETE FS_UNREPORTED None] else []) ++
+                       (if l_ind_eof_sent (s_cfg s) then [EvEofSent a b] else [])) /\
     s_queue s' = s_queue s ++ [PEof (hdr_of (q_conf (s_p s)) TOWARDS_RECEIVER) cond ck (q_progress (s_p s)) None].
 Proof.
   intros s cond a b ck Ht Hf Hce Hst Hr _ Hsnd.
@@ -246,7 +252,7 @@ Proof.
     destruct (l_ind_eof_sent cfg); cbn; unfold bind; cbn;
     destruct (sc_mode cf =? ACKED); cbn; unfold bind; cbn;
     try (destruct rc as [r|]; [|contradiction (Hr eq_refl)]; cbn; unfold bind; cbn);
+    try (destruct (l_ind_fin cfg); cbn; unfold bind; cbn);
     (eexists; split; [reflexivity|]; cbn; split; [|reflexivity]);
-    first [ exists [EvEofSent a b]; split; [reflexivity | right; reflexivity]
-          | exists []; split; [reflexivity | left; reflexivity] ].
+    (eexists; split; [|reflexivity]; reflexivity).
 Qed.
